@@ -28,6 +28,9 @@ pub enum ExpClass {
 pub struct ExpReport {
     pub class: ExpClass,
     pub loc: Path,
+    /// which error type the report is made to: 0 = the caller's, 1 = a field-level
+    /// `error = SimErrB` (and everything deserialized beneath such a field)
+    pub ty: u8,
 }
 
 #[derive(Clone, Copy, Debug, PartialEq, Eq)]
@@ -72,6 +75,15 @@ pub struct Model<'a> {
     pub cb_faults: &'a [(u32, u64)],
 }
 
+thread_local! {
+    /// error-type context of the position being interpreted (see ExpReport::ty)
+    static TY: std::cell::Cell<u8> = std::cell::Cell::new(0);
+}
+
+fn cur_ty() -> u8 {
+    TY.with(|t| t.get())
+}
+
 fn push(loc: &Path, s: Step) -> Path {
     let mut p = loc.clone();
     p.push(s);
@@ -110,6 +122,7 @@ enum FState {
 impl<'a> Model<'a> {
     pub fn run(&self, root: &Desc, doc: &Doc) -> Expect {
         let mut out = Expect::default();
+        TY.with(|t| t.set(0));
         let v = self.interp(root, doc, &vec![], &mut out);
         debug_assert_eq!(v.is_some(), out.reports.is_empty());
         out.value = v;
@@ -123,7 +136,7 @@ impl<'a> Model<'a> {
 
     fn report(&self, out: &mut Expect, class: ExpClass, loc: &Path) {
         out.max_fail_depth = out.max_fail_depth.max(loc.len());
-        out.reports.push(ExpReport { class, loc: loc.clone() });
+        out.reports.push(ExpReport { class, loc: loc.clone(), ty: cur_ty() });
     }
 
     fn kind_err(&self, out: &mut Expect, doc: &Doc, accepted: &[Kind], loc: &Path) -> Option<MVal> {
@@ -517,7 +530,14 @@ impl<'a> Model<'a> {
                 Some(fi) => {
                     let f = &fields[fi];
                     let c = push(loc, Step::Key(k.clone()));
-                    match self.interp(f.src_ty(), v, &c, out) {
+                    // the field's value (and a failing try_from) is reported to the field's
+                    // error type; everything else of this container to the container's
+                    let outer_ty = cur_ty();
+                    let field_ty = if f.error_b { 1 } else { outer_ty };
+                    TY.with(|t| t.set(field_ty));
+                    let interpreted = self.interp(f.src_ty(), v, &c, out);
+                    TY.with(|t| t.set(outer_ty));
+                    match interpreted {
                         None => {
                             states[fi] = FState::Err;
                             out.handovers.push(c);
@@ -548,7 +568,9 @@ impl<'a> Model<'a> {
                                     failed,
                                 });
                                 if failed {
+                                    TY.with(|t| t.set(field_ty));
                                     self.report(out, ExpClass::Foreign { token: user_token(*fn_id, val.hash()) }, &c);
+                                    TY.with(|t| t.set(outer_ty));
                                     states[fi] = FState::Err;
                                     out.handovers.push(c);
                                 } else {
